@@ -9,22 +9,24 @@ nmiss_now = table.count("| MISSED |")
 sec = f'''
 ## 12. Seeded changes: which check reports which change
 
-**Protocol.** Nine rounds of fresh sub-agents (rounds 1-2: two agents per property with one change each; rounds 3-7: one
-agent per property with two changes; rounds 8-9: one change per property; 280 changes in all).  Each agent saw only the text of one property and a scratch
+**Protocol.** Ten rounds of fresh sub-agents (rounds 1-2: two agents per property with one change each; rounds 3-7: one
+agent per property with two changes; rounds 8-9: one change per property; round 10, in the continuation session: one change
+for each of C07, C11, C13, C15, C16, C17; 286 changes in all).  Each agent saw only the text of one property and a scratch
 copy of the crate - nothing from /verif - and had to produce a small, realistic change that breaks the property, keeps
 the crate compiling and keeps all 483 existing tests passing, needs something specific to manifest, and comes with a
 demonstration test.  In rounds 4 to 9 the agents were also given the one-line titles of the changes already tried for their
 property and told to go elsewhere.  Every change was confirmed here in a scratch worktree (`lib/seedtest.py`:
 demonstration passes on the original and fails with the change; the whole existing suite passes with the change)
 before the property's quick check was run against it (`git -C /repo apply`; `./check Cxx --tier quick`;
-`git -C /repo checkout -- .`).  The kept changes are in `seeded/<Cxx>-<A..N>/` (patch.diff, demo.rs, notes.md, meta.json
-with what was run and the outcome): A, B from rounds 1-2, C, D from round 3, E, F from round 4, G, H from round 5, I, J from round 6, K, L from round 7, M from round 8, N from round 9; all {nrows} apply to the
+`git -C /repo checkout -- .`).  The kept changes are in `seeded/<Cxx>-<A..O>/` (patch.diff, demo.rs, notes.md, meta.json
+with what was run and the outcome): A, B from rounds 1-2, C, D from round 3, E, F from round 4, G, H from round 5, I, J from round 6, K, L from round 7, M from round 8, N from round 9, O from round 10; all {nrows} apply to the
 current tree.  The two round-1 changes for C15 patched the `DeduplicateTracker`, which no longer exists since
 `deduplicate_namespaces` was rewritten (§11.3); they were reported by the C15 check at the time (one only after the
 known-finding signature had been narrowed, §11.5 item 11) and are replaced by C15-C .. C15-N.
 
-**Result.** Of the 280 changes, 204 were reported by the quick check of their property the first time it met them, 76
-were not (10 of 40 in rounds 1-2, 4 of 40 in round 3, 10 of 40 in round 4, 10 of 40 in round 5, 17 of 40 in round 6, 13 of 40 in round 7, 5 of 20 in round 8 and 7 of 20 in round 9, where the agents were steered away from what
+**Result.** Of the 286 changes, 210 were reported by the quick check of their property the first time it met them, 76
+were not (all 6 of round 10 were reported at once, by /verif as committed except that the C16 check already carried the
+normaliser law of 11.2 - its first rejection of C16-O is the older clause "token stream does not spell the string"; before that: 10 of 40 in rounds 1-2, 4 of 40 in round 3, 10 of 40 in round 4, 10 of 40 in round 5, 17 of 40 in round 6, 13 of 40 in round 7, 5 of 20 in round 8 and 7 of 20 in round 9, where the agents were steered away from what
 had been tried).  Almost every miss was a gap in what the generators reach; a few were gaps in what is observed (C12-F, C12-J: the xml:id
 index of a clone / of a cloned store; C09-G: an accessor that panics killed the observer instead of being reported;
 C16-I: the Write-based entry point was only driven through a Vec; C07-J: a state that cannot be built was charged to
